@@ -366,7 +366,11 @@ def gen_long(rng, cfgs, pts_sub, thorough):
             ks = []
             for i in idxs:
                 ks += [i, rng.choice([1, 2, g.r - 1, rng.randrange(1, g.r)])]
-            yield case(g, 'msm_chunks_long', [n], ks, sub) + ('%s/msm_chunks_long/n=2^20+%d' % ('toy' if g.toy else g.name, extra),)
+            # more bases than scalars (the leading bases are skipped once) / equal lengths
+            more = rng.choice([3, 1]) if (thorough or extra == 9) else 0
+            yield case(g, 'msm_chunks_long', [n, more], ks, sub) + ('%s/msm_chunks_long/n=2^20+%d/bases+%d' % ('toy' if g.toy else g.name, extra, more),)
+            if thorough:
+                yield case(g, 'msm_chunks_long', [n, 0], ks, sub) + ('%s/msm_chunks_long/n=2^20+%d/bases+0' % ('toy' if g.toy else g.name, extra),)
 
 
 def sizeclass(n, size):
